@@ -522,7 +522,9 @@ func runSess(c SessCase) core.Result {
 		// which run
 		ri := -1
 		for r := range runs {
-			if !a.at.Before(runs[r].from) && !a.at.After(runs[r].to) {
+			// a request the client wrote just before it was cancelled may be read by the tracker late: everything up
+			// to the next Start belongs to the run before it
+			if !a.at.Before(runs[r].from) {
 				ri = r
 			}
 		}
@@ -567,7 +569,7 @@ func runSess(c SessCase) core.Result {
 		for r, rinfo := range runs {
 			var seq []ann
 			for _, a := range all {
-				if a.trk == ti && !a.at.Before(rinfo.from) && !a.at.After(rinfo.to) {
+				if a.trk == ti && !a.at.Before(rinfo.from) && (r+1 == len(runs) || a.at.Before(runs[r+1].from)) {
 					seq = append(seq, a)
 				}
 			}
